@@ -379,6 +379,37 @@ fn main() {
     std::panic::set_hook(Box::new(|_| {}));
     let args: Vec<String> = std::env::args().collect();
     match args.get(1).map(|s| s.as_str()) {
+        Some("ssa-reads") => {
+            // one definition from a file -> CFG -> SSA; every read of a local variable must name a parameter or a variable
+            // some statement writes, with the same (name, suffix, version), and no versioned local is written twice
+            use program_structure::ir::variable_meta::VariableMeta;
+            let src = std::fs::read_to_string(&args[2]).unwrap_or_default();
+            let r = catch_unwind(AssertUnwindSafe(|| {
+                let def = match parser::parse_definition(&src) { Some(d) => d, None => return Err("parse".to_string()) };
+                let mut reports = ReportCollection::new();
+                let cfg = def.into_cfg(&Curve::default(), &mut reports).map_err(|_| "lift".to_string())?;
+                let cfg = cfg.into_ssa().map_err(|_| "ssa".to_string())?;
+                let mut defined: std::collections::BTreeMap<String, usize> = Default::default();
+                let key = |n: &program_structure::ir::VariableName| format!("{}|{:?}|{:?}", n.name(), n.suffix(), n.version());
+                for p in cfg.parameters().iter() { *defined.entry(key(p)).or_insert(0) += 1; }
+                for bb in cfg.iter() { for st in bb.iter() { for w in st.locals_written() { *defined.entry(key(w.name())).or_insert(0) += 1; } } }
+                let mut undefined: std::collections::BTreeSet<String> = Default::default();
+                let mut nreads = 0usize;
+                for bb in cfg.iter() { for st in bb.iter() { for rd in st.locals_read() {
+                    nreads += 1;
+                    let k = key(rd.name());
+                    if !defined.contains_key(&k) { undefined.insert(format!("{} (bytes {}..{})", k, rd.meta().location.start, rd.meta().location.end)); }
+                } } }
+                let twice: Vec<String> = defined.iter().filter(|(_, n)| **n > 1).map(|(k, n)| format!("{} x{}", k, n)).collect();
+                Ok((nreads, defined.len(), undefined.into_iter().collect::<Vec<_>>(), twice))
+            }));
+            match r {
+                Err(_) => println!("{{\"status\":\"panic\"}}"),
+                Ok(Err(e)) => println!("{{\"status\":{}}}", jstr(&e)),
+                Ok(Ok((nreads, ndefs, und, twice))) => println!("{{\"status\":\"ok\",\"reads\":{},\"definitions\":{},\"undefined_reads\":[{}],\"written_twice\":[{}]}}", nreads, ndefs,
+                    und.iter().map(|s| jstr(s)).collect::<Vec<_>>().join(","), twice.iter().map(|s| jstr(s)).collect::<Vec<_>>().join(",")),
+            }
+        }
         Some("bounded-timebox") => { timebox_bounded(args.get(2).map(|s| s.as_str()).unwrap_or("quick")); }
         Some("bounded") => {
             let tier = args.get(2).map(|s| s.as_str()).unwrap_or("quick");
